@@ -7,7 +7,7 @@ MODEL_VO = ["theories/Rx/Spec.vo"]
 PROOF_VO = ["theories/C10/Props.vo"]
 PROPS_V = "theories/C10/Props.v"
 EXTRACT = "extract/Rx.v"
-DEPS = ["Pkg", "Rx"]
+DEPS = ["Pkg", "Rx", "C01", "C15"]
 DESIGN_REF = "DESIGN.md section 5, C10"
 TECHNIQUE = "Coq proof of panic-freedom of every package decoder (combinator closure) + exhaustive GoValue sweep tabulated from the code + malformed-input correspondence"
 RULE = ("malformed input after every known token: valid encodings with the total-length / count fields off by one, mutated bytes, truncated and extended bodies, "
